@@ -272,16 +272,12 @@ func (dec *Decoder) Token() (Token, error) {
 // current array or object being parsed.
 func (dec *Decoder) More() bool {
 	dec.hadPeeked = true
-	k := dec.dec.PeekKind()
-	if k == 0 && dec.err == nil {
-		// PeekKind doesn't distinguish between EOF and error,
-		// so read the next token to see which we get.
-		_, err := dec.dec.ReadToken()
-		if err == nil {
-			// This is only possible if jsontext violates its documentation.
-			err = errors.New("json: successful read after failed peek")
-		}
-		dec.err = transformSyntacticError(err)
+	if k := dec.dec.PeekKind(); k == 0 && dec.err == nil {
+		// PeekKind keeps its error for the next read call. Take it out
+		// here and do not retain it: like the original decoder,
+		// a later call looks at the input again, which may have grown
+		// (or a transient read error may be gone) by then.
+		dec.dec.ReadToken()
 	}
 	// Like the original decoder, look at the next byte that is not
 	// whitespace: there is more unless it is ']' or '}' or the input ends
